@@ -209,54 +209,92 @@ class C13(Prop):
         from aiorpcx import RPCSession, MessageSession, framing
         from aiorpcx.session import Concurrency
         loop = sessions.new_loop()
+        restore = []
         try:
             gates, running, peak, order, done = {}, set(), [0], [], []
             arrival, asked, admitted = {}, [], []
             msg = case.get('session') == 'message'
+            events, ended_set = [], set()       # raw events in order of occurrence -> labels of model/Throttle.v
+            ptimeout = case.get('ptimeout', 10 ** 6)
+
+            class CT(asyncio.tasks._PyTask):
+                def cancel(self, msg=None):
+                    k = arrival.get(self)
+                    if k is not None and not self.done():
+                        events.append(['cancel', k])
+                    return super().cancel(msg)
+            loop.set_task_factory(lambda lp, coro, **kw: CT(coro, loop=lp, **kw))
 
             holding, unheld = set(), []
 
             async def handle(k):
                 if k not in holding:
                     unheld.append(k)
+                events.append(['hstart', k])
                 running.add(k)
                 order.append(k)
                 peak[0] = max(peak[0], len(running))
+                aborted = False
                 try:
                     await gates[k]
+                except asyncio.CancelledError:
+                    aborted = True
+                    raise
                 finally:
                     running.discard(k)
                     done.append(k)
+                    events.append(['abort' if aborted else 'hend', k])
                 return k
 
+            def tracked(k, coro_fn):
+                # the task of request k: 'arrive' when the session creates the coroutine, 'first' at its first step
+                events.append(['arrive', k])
+
+                async def run():
+                    events.append(['first', k])
+                    arrival[asyncio.current_task()] = k
+                    try:
+                        return await coro_fn()
+                    finally:
+                        ended_set.add(k)
+                        events.append(['end', k])
+                return run()
+
             class RSrv(RPCSession):
-                processing_timeout = 10 ** 6
+                processing_timeout = ptimeout
                 cost_decay_per_sec = 0
 
                 async def handle_request(self, request):
                     return await handle(request.args[0])
 
-                async def _throttled_request(self, request):
-                    arrival[asyncio.current_task()] = request.args[0]
-                    return await super()._throttled_request(request)
+                def _throttled_request(self, request):
+                    return tracked(request.args[0], lambda: RPCSession._throttled_request(self, request))
 
             class MSrv(MessageSession):
-                processing_timeout = 10 ** 6
+                processing_timeout = ptimeout
                 cost_decay_per_sec = 0
 
                 async def handle_message(self, message):
                     return await handle(int(message[1]))
 
-                async def _throttled_message(self, message):
-                    arrival[asyncio.current_task()] = int(message[1])
-                    return await super()._throttled_message(message)
+                def _throttled_message(self, message):
+                    return tracked(int(message[1]), lambda: MessageSession._throttled_message(self, message))
 
             class Watch(Concurrency):
                 # the limiter guarding the handlers: who asks for a permit and who gets one, in order
                 async def __aenter__(self_):
                     k = arrival.get(asyncio.current_task())
                     asked.append(k)
-                    r = await Concurrency.__aenter__(self_)
+                    queued = self_._target > 0 and self_._semaphore.locked()
+                    events.append(['ask', k])
+                    try:
+                        r = await Concurrency.__aenter__(self_)
+                    except BaseException:
+                        events.append(['wake' if queued else 'refused', k])
+                        raise
+                    if queued:
+                        events.append(['wake', k])
+                    events.append(['admit', k])
                     admitted.append(k)
                     holding.add(k)
                     return r
@@ -265,9 +303,36 @@ class C13(Prop):
                     holding.discard(arrival.get(asyncio.current_task()))
                     return await Concurrency.__aexit__(self_, *exc)
 
+                def set_target(self_, n):
+                    events.append(['target', n])
+                    return Concurrency.set_target(self_, n)
+
             async def main():
                 proto, ft, s = sessions.attach(MSrv if msg else RSrv, 'server', case['transport'])
                 s._incoming_concurrency.__class__ = Watch
+                conc = s._incoming_concurrency
+                from aiorpcx import session as session_mod
+                real_sleep = session_mod.sleep
+
+                async def watched_sleep(delay, *a):
+                    k = arrival.get(asyncio.current_task())
+                    aborted = False
+                    try:
+                        return await real_sleep(delay, *a)
+                    except asyncio.CancelledError:
+                        aborted = True
+                        raise
+                    finally:
+                        if k is not None:
+                            events.append(['abort' if aborted else 'slept', k])
+                session_mod.sleep = watched_sleep
+                restore.append(lambda: setattr(session_mod, 'sleep', real_sleep))
+
+                def snap():
+                    events.append(['snap', {'semv': conc._sem_value, 'value': conc._semaphore._value,
+                                            'holders': sorted(holding), 'running': sorted(running),
+                                            'nwaiters': len(conc._semaphore._waiters or ()),
+                                            'ended': sorted(ended_set), 'asked': list(asked)}])
                 fr = framing.BitcoinFramer()
                 n = case['n']
                 viol = []
@@ -306,12 +371,13 @@ class C13(Prop):
                     elif step[0] == 'advance':
                         await asyncio.sleep(step[1])
                     await sessions.settle(8)
+                    snap()
                     largest = max(largest, s._incoming_concurrency.max_concurrent)
                     if len(running) > largest:
                         viol.append(f'{len(running)} handlers run at once, the largest limit in force was {largest}')
                     unanswered = s.unanswered_request_count()
-                    if unanswered != sent - len(done):
-                        viol.append(f'unanswered_request_count() = {unanswered}, received {sent}, finished {len(done)}')
+                    if unanswered != sent - len(ended_set):
+                        viol.append(f'unanswered_request_count() = {unanswered}, received {sent}, finished {len(ended_set)}')
                 # drain: everything is eventually served, in arrival order
                 for _ in range(4 * n):
                     for k in sorted(running):
@@ -320,10 +386,11 @@ class C13(Prop):
                     if costed:
                         await asyncio.sleep(3)
                     await sessions.settle(8)
-                    if len(done) == sent:
+                    snap()
+                    if len(ended_set) == sent:
                         break
-                if len(done) != sent:
-                    viol.append(f'only {len(done)} of {sent} requests were ever served')
+                if len(ended_set) != sent or (len(done) != sent and ptimeout > 10 ** 5):
+                    viol.append(f'only {len(done)} of {sent} requests were ever served ({len(ended_set)} ended)')
                 if order != sorted(order) and not costed:
                     viol.append('requests were not admitted in arrival order')
                 if None in asked or sorted(asked) != list(range(sent)):
@@ -333,10 +400,67 @@ class C13(Prop):
                                 f'granted in order {admitted[:12]}...')
                 elif unheld:
                     viol.append(f'the handlers of requests {unheld[:8]} started while their requests held no permit')
-                return {'viol': viol[:3], 'peak': peak[0], 'limit0': limit0, 'sent': sent, 'costed': costed}
+                return {'viol': viol[:3], 'peak': peak[0], 'limit0': limit0, 'sent': sent, 'costed': costed,
+                        'events': events}
             return loop.run_until_complete(main())
         finally:
+            for f in restore:
+                f()
             sessions.close_loop(loop)
+
+    # ---- the same run as a trace of model/Throttle.v
+    @staticmethod
+    def throttle_term(case, obs, nops):
+        """labels of model/Throttle.v for the events of a session workload; a snapshot of the real session after
+        every scenario step.  A suspension point the real run passed without suspending (a sleep of zero length
+        that is skipped, a send that completes at once) is a suspension followed at once by its resumption."""
+        from harness.core import c_N, c_Z, c_nat, c_list
+        out = []
+        last = {}
+        queued = set()
+        for ev in obs['events']:
+            kind, x = ev
+            lab = []
+            if kind == 'arrive':
+                lab = [f'TArrive {c_N(x)}']
+            elif kind == 'first':
+                lab = ['TFirst']
+            elif kind == 'wake':
+                lab = [f'TWake {c_N(x)}']
+                queued.discard(x)
+            elif kind == 'slept':
+                lab = [f'TResume {c_N(x)}']
+            elif kind == 'hstart':
+                if last.get(x) != 'slept':
+                    lab = [f'TResume {c_N(x)}']        # the cost-proportional sleep was skipped
+            elif kind == 'hend':
+                lab = [f'TResume {c_N(x)}']
+            elif kind == 'ask':
+                queued.add(x)
+            elif kind in ('admit', 'refused'):
+                queued.discard(x)
+            elif kind == 'cancel':
+                if x in queued:
+                    lab = [f'TCancelW {c_N(x)}']       # otherwise the exception arrives with the 'abort' event
+            elif kind == 'abort':
+                lab = [f'TAbort {c_N(x)}']
+            elif kind == 'end':
+                lab = [f'TResume {c_N(x)}'] * nops      # whatever is left of the coroutine ran without suspending
+            elif kind == 'target':
+                lab = [f'TSetTarget {c_Z(x)}']
+            elif kind == 'snap':
+                nl = lambda xs: c_list([c_N(v) for v in xs], 'N')
+                s = (f"{{| ts_semv := {c_Z(x['semv'])}; ts_value := {c_Z(x['value'])}; ts_holders := {nl(x['holders'])}; "
+                     f"ts_running := {nl(x['running'])}; ts_nwaiters := {c_nat(x['nwaiters'])}; "
+                     f"ts_ended := {nl(x['ended'])}; ts_asked := {nl(x['asked'])} |}}")
+                if out:
+                    out[-1] = (out[-1][0], s)
+                continue
+            if kind != 'snap':
+                last[x] = kind
+            out += [(l, None) for l in lab]
+        items = [f"({l}, {'(@None tsnap)' if s is None else '(Some ' + s + ')'})" for l, s in out]
+        return f"({'true' if case.get('session') == 'message' else 'false'}, {c_Z(obs['limit0'])}, {c_list(items, 'tlabel * option tsnap')})"
 
     def extra_checks(self, ctx):
         from harness.core import Failure
@@ -344,9 +468,18 @@ class C13(Prop):
         out = []
         n = 40 if ctx['tier'] == 'quick' else 600
         peaks = []
+        runs = []
         directed = [{'session_workload': True, 'n': 40, 'session': k, 'transport': tr,
                      'steps': [['cost', 6000], ['arrive', 30], ['cost', 2400], ['arrive', 5], ['advance', 2.5], ['finish', 40]]}
                     for k, tr in (('rpc', 'rs'), ('message', 'us'))]
+        # requests that run into the processing timeout while queued, while sleeping and inside their handler
+        directed += [{'session_workload': True, 'n': 40, 'session': k, 'transport': 'rs', 'ptimeout': 4.0,
+                      'steps': [['cost', 9000], ['arrive', 24], ['advance', 2.0], ['finish', 6], ['arrive', 6], ['advance', 2.5],
+                                ['finish', 2], ['arrive', 4], ['advance', 2.5], ['finish', 3], ['advance', 5.0]]}
+                     for k in ('rpc', 'message')]
+        directed += [{'session_workload': True, 'n': 30, 'session': 'rpc', 'transport': 'us', 'ptimeout': 1.5,
+                      'steps': [['cost', 6000], ['arrive', 14], ['advance', 0.5], ['cost', 3000], ['arrive', 6], ['advance', 1.2],
+                                ['finish', 5], ['advance', 1.0], ['arrive', 5], ['finish', 10], ['advance', 3.0]]}]
         for i in range(n):
             steps = []
             for _ in range(rng.randrange(4, 14)):
@@ -361,14 +494,48 @@ class C13(Prop):
                                     ['advance', rng.choice([0.05, 0.3, 1.0, 2.5])]]
             case = {'session_workload': True, 'n': rng.choice([30, 80, 150]), 'steps': steps,
                     'session': rng.choice(['rpc', 'rpc', 'message']), 'transport': rng.choice(['rs', 'us'])}
+            if rng.random() < 0.25:
+                case['ptimeout'] = rng.choice([1.5, 4.0, 9.0])
+                for _ in range(rng.randrange(2, 6)):
+                    steps.insert(rng.randrange(len(steps) + 1), ['advance', rng.choice([0.5, 1.0, 2.5, 5.0])])
             if i < len(directed):
                 case = directed[i]
             obs = self.session_workload(case)
             peaks.append(obs['peak'])
+            runs.append((case, obs))
             if obs['viol']:
                 out.append(Failure(case, obs, 'session level: ' + obs['viol'][0]))
                 if len(out) >= 3:
                     break
+        # the same runs as traces of model/Throttle.v (the coroutine shape comes from gen/Gen_session.v)
+        if ctx['build_ok'] and runs:
+            from harness import core
+            shapes = {}
+            for name in ('throttled_request_ops', 'throttled_message_ops'):
+                import re
+                m = re.search(name + r' : list throttle_op := \[(.*?)\]', open(core.COQ + '/gen/Gen_session.v').read())
+                shapes[name] = len([x for x in m.group(1).split(';') if x.strip()]) if m else 8
+            terms = [self.throttle_term(c, o, shapes['throttled_message_ops' if c.get('session') == 'message' else 'throttled_request_ops'])
+                     for c, o in runs]
+            mism, errors = core.eval_cases('C13s', 'From AV Require Import Base Limiter Gen_session Throttle.',
+                                           'bool * Z * list (tlabel * option tsnap)', 'throttle_ok', terms, shard=8)
+            for k, err in errors:
+                ctx['broken'].append({'kind': 'correspondence', 'what': f'session-level cases shard {k} did not evaluate: {err[-600:]}'})
+            failed_cases = {id(f.case) for f in out}
+            for j in mism:
+                c, o = runs[j]
+                if id(c) in failed_cases:
+                    continue
+                shown = core.eval_show('C13s', 'From AV Require Import Base Limiter Gen_session Throttle.',
+                                       f"let '(m, t, tr) := {terms[j]} in ttrace_firstbad (if m then throttled_message_ops else throttled_request_ops) (tinit t) tr 0")
+                ctx['broken'].append({'kind': 'correspondence',
+                                      'what': 'the session-level model (model/Throttle.v, correspondence check throttle_ok) and the real '
+                                              'session differ on a workload; first label whose snapshot differs: ' + str(shown)[-200:],
+                                      'case': c, 'events': [e for e in o['events'] if e[0] != 'snap'][:400]})
+                break
+            ctx['extra_evals'] += len(terms)
+            ctx['notes'].append(f'session-level traces accepted by model/Throttle.v: {len(terms) - len(mism)} of {len(terms)} '
+                                f'({sum(len(o["events"]) for _, o in runs)} events)')
         ctx['notes'].append(f'session-level workloads on a real RPCSession / MessageSession (cost moving in about 40%): {n}, peak concurrent handlers max {max(peaks)} '
                             f'(reaching the limit in {sum(1 for p in peaks if p >= 20)} of them)')
         return out
